@@ -1,4 +1,4 @@
-import Httpcache.Proofs.Store
+import Httpcache.Proofs.IndexBound
 /-
 C19 — Store footprint is bounded by the distinct resources and variants requested.
 
@@ -8,13 +8,16 @@ C19 — Store footprint is bounded by the distinct resources and variants reques
    independent of how many requests are made. Invalidation removes every key it makes
    unreachable."
 
-Proved: the step facts from which the bound follows — the keys an exchange writes are a function
-of (URL key, Vary value, selecting values) only (`written_keys_determined`), an index never holds
-two identical references after a store (`no_identical_references`), grows by at most one per
-store (`index_growth_bounded`) and invalidation deletes the index key and the id of every
-reference it read (`invalidate_complete`). PARTIAL: the induction over the history that turns
-these into `keys(store) ⊆ S(A)` is not carried out in Lean; the monitor checks the bound on the
-implementation over long repetitions of a finite request alphabet.
+Proved: the keys an exchange writes are a function of (URL key, Vary value, selecting values) only
+(`written_keys_determined`); INVARIANT of every index: no two references describe the same variant,
+preserved by StoreResponse at any position (`index_invariant`); hence, by induction over ANY history
+(`ReachableIndex`: empty, re-read in any order, rewritten by StoreResponse), every index holds at most
+as many references as there are distinct variants in the alphabet (`every_reachable_index_bounded`) —
+independent of the number of requests; invalidation deletes the index key and the id of every reference
+it read (`invalidate_complete`). PARTIAL: the number of KEYS in the backing store (entries whose index
+was overwritten concurrently, orphaned ids) is bounded by the same finite set of ids
+(`written_keys_determined`) but that counting step is not carried out in Lean; the monitor checks both
+bounds on the implementation over long repetitions of a finite request alphabet.
 -/
 namespace Httpcache.C19
 open Httpcache
@@ -73,5 +76,25 @@ theorem invalidate_complete (cfg : Cfg) (req : Req) (respH : Header) (refs : Lis
     (tr : List Step) (r : Result) (h : Run (invalidateCache cfg req respH refs key k) tr r) :
     Step.delete key ∈ tr ∧ ∀ ref ∈ refs, Step.delete ref.id ∈ tr :=
   invalidateCache_deletes cfg req respH refs key k tr r h
+
+/-- INVARIANT of every index: no two references describe the same variant (id, Vary value, recorded
+    selecting values); StoreResponse preserves it whatever position it replaces ('Vary: *' resources,
+    repeated misses, changing Vary all included) -/
+theorem index_invariant (refs : List Ref) (ri : Option Nat) (ref : Ref) (hnd : (refs.map variantOf).Nodup) :
+    ((dedupeRefs (placeRef refs ri ref).1 (placeRef refs ri ref).2 ref).map variantOf).Nodup :=
+  store_keeps_variants_distinct refs ri ref hnd
+
+/-- for EVERY history (any number of requests, any order, any interleaving of stores, re-reads and
+    invalidations of the index): an index holds at most as many references as there are distinct
+    variants among the responses stored for the URI -/
+theorem every_reachable_index_bounded (T : List (Str × Str × List (Str × Str))) (refs : List Ref)
+    (h : ReachableIndex T refs) : refs.length ≤ T.length :=
+  reachable_index_bounded T refs h
+
+/-- non-vacuity (a test): an index reached by two stores of the same variant and one of another -/
+example : ReachableIndex [((str% "k#0"), [], []), ((str% "k#1"), (str% "X-A"), [((str% "X-A"), (str% "1"))])]
+    (dedupeRefs (placeRef (dedupeRefs (placeRef [] none ⟨(str% "k#0"), [], [], none⟩).1 (placeRef [] none ⟨(str% "k#0"), [], [], none⟩).2 ⟨(str% "k#0"), [], [], none⟩) none ⟨(str% "k#0"), [], [], none⟩).1
+      (placeRef (dedupeRefs (placeRef [] none ⟨(str% "k#0"), [], [], none⟩).1 (placeRef [] none ⟨(str% "k#0"), [], [], none⟩).2 ⟨(str% "k#0"), [], [], none⟩) none ⟨(str% "k#0"), [], [], none⟩).2 ⟨(str% "k#0"), [], [], none⟩) :=
+  .stored none _ (.stored none _ .empty (by decide)) (by decide)
 
 end Httpcache.C19
